@@ -43,6 +43,8 @@ pub enum Op {
     Stop(usize, bool), // via control handle?
     Sleep(u64),
     Quiesce, // pause everything that runs, check conservation exactly, resume
+    /// a mesh update for names that are not shared (empty map / unknown name): must not disturb the shared store
+    Mesh(usize, bool),
 }
 
 #[derive(Clone, Debug)]
@@ -154,6 +156,7 @@ fn gen_trial(r: &mut Rng) -> Trial {
             10 | 11 => Op::OpenGate(j),
             12 => Op::Stop(j + n * r.usize(2), r.bool()), // j / n = 1: the clock ticks on right after the stop request
             13 | 14 => Op::Quiesce,
+            15 | 16 => Op::Mesh(j, r.bool()),
             _ => {
                 let us = *r.pick(&[1u64, 10, 50, 200, 1000]);
                 Op::Sleep(us)
@@ -208,6 +211,7 @@ pub struct Obs {
     pub faults_isolated: u64,
     pub cycles_total: u64,
     pub gated_stops: u64,
+    pub mesh_updates_sent: u64,
     pub outcome: Vec<String>,
 }
 
@@ -520,6 +524,17 @@ pub fn run_trial(t: &Trial, seed: u64) -> Result<Obs, Viol> {
                 std::thread::sleep(StdDuration::from_micros(*us));
                 Ok(())
             }
+            Op::Mesh(j, unknown_name) => {
+                let l = &live[*j % n];
+                let mut updates = indexmap::IndexMap::new();
+                if *unknown_name {
+                    updates.insert(smol_str::SmolStr::new("not_a_shared_name"), Value::DInt(1));
+                }
+                if !l.stopped && l.control.send_command(ResourceCommand::MeshApply { updates }).is_ok() {
+                    obs.mesh_updates_sent += 1;
+                }
+                Ok(())
+            }
             Op::OpenGate(j) => {
                 let l = &mut live[*j % n];
                 if let (Some(g), false) = (&l.gate, l.gate_open) {
@@ -678,6 +693,7 @@ fn trial_json(t: &Trial) -> J {
             Op::Stop(j, v) => json!(["stop", j, v]),
             Op::Sleep(us) => json!(["sleep", us]),
             Op::Quiesce => json!(["quiesce"]),
+            Op::Mesh(j, u) => json!(["mesh", j, u]),
         }).collect::<Vec<_>>(),
     })
 }
@@ -697,6 +713,7 @@ fn parse_trial(v: &J) -> Trial {
                         "open" => Op::OpenGate(j),
                         "stop" => Op::Stop(j, o[2].as_bool().unwrap_or(false)),
                         "sleep" => Op::Sleep(o[1].as_u64().unwrap_or(1)),
+                        "mesh" => Op::Mesh(j, o[2].as_bool().unwrap_or(false)),
                         _ => Op::Quiesce,
                     }
                 })
@@ -735,6 +752,7 @@ fn one(sh: &mut Shard, t: &Trial, seed: u64) -> bool {
             sh.count("online_bracket_checks", o.bracket_checks);
             sh.count("samples_with_two_resources_advancing", o.concurrency_witnessed);
             sh.count("faults_isolated", o.faults_isolated);
+            sh.count("mesh_updates_for_unshared_names_sent", o.mesh_updates_sent);
             sh.count(&format!("trials_with_{}_resources", t.res.len()), 1);
             if t.solo {
                 sh.count("solo_trials", 1);
